@@ -53,8 +53,8 @@ CHECKS = {
  "C11": ("deterministic simulation: connected topologies on 2-6 real gossip nodes over SimNet with seeded delay, reordering and duplication (copies arriving together), handlers preempted inside in a share of runs, bursts of transactions from one origin; per-item oracle over the network log and the per-node ledger-call log",
          "Per injected item (vertex whose parents are admitted everywhere, or awaiting transaction): admitted by every node, at most once per node, forwarded only after the node's own acceptance, at most once per link (per suppression window for transactions), never sent to a node already listed with a valid signature, with at most sum-of-degrees messages. Labelled graphs on <=4 nodes are drawn by edge mask and delivery orders are sampled (their signatures are counted), not enumerated exhaustively. Dependent items in flight are a separate class whose non-delivery is a recorded known finding.",
          "request contexts are not cancelled on handler return (ctx_cancel_on_return off); loss is injected in a share of runs where only the safety half is judged", "5 C11"),
- "C12": ("deterministic simulation with a byzantine relay fault: forged gossiper lists (7 classes) spliced into the relay's outgoing gossip in the C11 network; C11 per-item oracle restricted to honest nodes + honest-path delivery",
-         "One node per run forwards gossip with forged gossiper entries (garbage, honest address with bad signature, valid signatures lifted from other items, its own signature under honest addresses, the target itself, all of the target's neighbours, duplicates); every honest node with an honest path to the origin must still admit every item exactly once and honest nodes must never skip a peer because of an invalid entry.",
+ "C12": ("deterministic simulation with a byzantine relay fault: forged gossiper lists (7 classes) spliced into the relay's outgoing gossip, and a worthless message under the item's hash sent ahead of it, in the C11 network; C11 per-item oracle restricted to honest nodes + honest-path delivery",
+         "One node per run forwards gossip with forged gossiper entries (garbage, honest address with bad signature, valid signatures lifted from other items, its own signature under honest addresses, the target itself, all of the target's neighbours, duplicates) or, in an eighth class, sends the target a worthless message naming the item's hash before the item; every honest node with an honest path to the origin must still admit every item exactly once and honest nodes must never skip a peer because of an invalid entry.",
          "validity of entries is recomputed independently (sha256(address|hash), ed25519 under the address' key)", "5 C12"),
  "C13": ("deterministic simulation: seeded permutations (with duplicates and invalid vertices) of a valid history delivered to a genesis-only node, real 2 s retry ticker on the simulated clock; differential against parents-first delivery to a second real node",
          "Children that arrive before their parents must be reported as such and parked; after the retries the node must hold exactly the ledger (vertices, parent links, index, balances) of a second real node fed the same history parents-first; invalid vertices must never be admitted through the retry path; the buffer bound must hold.",
